@@ -730,7 +730,7 @@ def closure_flag_findings(ix):
     return out
 
 
-def rule_CLOSURE(ctx, floor=2):
+def rule_CLOSURE(ctx, floor=1):
     """pending finding (FINDING_2): on the unmodified tree the flag of a closure variable is set on the InnerEntry only."""
     r = Rule('C40-CLOSURE', 'a flag the marking pass stores on an entry found by scope lookup and that infer_types() reads (might_overflow) reaches the defining entry of a closure '
                             'variable: stored through entry.all_entries() or shared by Symtab.InnerEntry', floor)
